@@ -347,7 +347,7 @@ def shard(i: int, n: int, tier: str, seed: int) -> Result:
     res = Result(PROP, tier, seed)
     rng = random.Random(seed * 27644437 + i)
     quick = tier == 'quick'
-    nprog = (48 if quick else 1600) // n
+    nprog = (48 if quick else 480) // n
     ninputs = 8 if quick else 12
     R = RealType(fp.FP64)
     arg_types = [R, R, ListType(R)]
